@@ -28,6 +28,12 @@ fn parse_lists(spec: &str) -> Vec<Vec<String>> {
         .collect()
 }
 
+#[cfg(not(feature = "inter"))]
+fn inter(_spec: &str) -> String {
+    "bad-op inter".into()
+}
+
+#[cfg(feature = "inter")]
 fn inter(spec: &str) -> String {
     let lists = parse_lists(spec);
     let refs: Vec<Vec<&str>> = lists.iter().map(|l| l.iter().map(|s| s.as_str()).collect()).collect();
